@@ -399,6 +399,9 @@ where
         + LossyFrom<U0F128>,
 {
     //wraparound
+    // remove whole periods first; the remainder is exact, so the result is bit-identical to
+    // subtracting 2*pi repeatedly, and the loops below then run at most twice
+    angle = angle % T::lossy_from(TWO_PI);
     while angle > PI {
         #[cfg(substrate_fixed_verif)]
         crate::verif_hooks::tick();
